@@ -49,6 +49,9 @@ FORBIDDEN = re.compile(r"\b(sorry|admit|native_decide|bv_decide|implemented_by|u
 if REPO not in sys.path[:1]:
     sys.path.insert(0, REPO)
 os.environ.setdefault("MPLBACKEND", "Agg")
+# 16 scenario workers with multi-threaded BLAS starve the machine
+for _v in ("OPENBLAS_NUM_THREADS", "OMP_NUM_THREADS", "MKL_NUM_THREADS"):
+    os.environ.setdefault(_v, "1")
 warnings.simplefilter("ignore")
 
 
@@ -244,7 +247,7 @@ def _alarm(signum, frame):
 
 def guarded_impl(mod, sc, seconds=None):
     """run one scenario on the implementation under a watchdog"""
-    seconds = seconds or getattr(mod, "WATCHDOG", 20)
+    seconds = seconds or getattr(mod, "WATCHDOG", 90)
     old = signal.signal(signal.SIGALRM, _alarm)
     signal.alarm(seconds)
     try:
